@@ -195,6 +195,18 @@ def worker(case, led):
             d2 = np.asarray(o.todense(created))
             led.check(np.abs(d2 - d).max() <= 1e-10 * scale, "post:TTNO.todense:independent_contraction", "TTNO.todense",
                       f"todense(order) differs from the independent contraction by {np.abs(d2 - d).max():.2e}", key + ("todense",), fields, dict(rep, algo=algo))
+            # the `order` argument: any permutation of the basis sets (reversed, interleaved across nodes) gives the operator in THAT tensor-product order
+            for oname, perm_ in (("reversed", list(range(len(created)))[::-1]), ("interleaved", list(range(0, len(created), 2)) + list(range(1, len(created), 2)))):
+                if perm_ == list(range(len(created))):
+                    continue
+                ordp = [created[i_] for i_ in perm_]
+                try:
+                    dp = np.asarray(o.todense(ordp))
+                    refp = T.dense_ttno(o, ordp)
+                    led.check(dp.shape == refp.shape and np.abs(dp.reshape(refp.shape) - refp).max() <= 1e-10 * scale, "post:TTNO.todense:order_argument", "TTNO.todense",
+                              f"todense({oname} order) differs from the independent contraction in that order", key + ("todense", oname), fields, dict(rep, algo=algo, order=oname))
+                except Exception as e:
+                    led.check(False, "post:TTNO.todense:order_argument", "TTNO.todense", f"todense({oname} order) raised {type(e).__name__}: {e}", key + ("todense", oname), fields, dict(rep, algo=algo))
         # a second, different tree over the same degrees of freedom gives the same operator
         if kind == "enum":
             bt2 = None
